@@ -302,26 +302,26 @@ impl Sut {
         let p = self.pos(id);
         // C06: never reissued
         if !self.issued.insert(id) {
-            return Err(v(&["C06"], format!("{}: id {:?} was handed out before", what, id)));
+            bad!(self, ["C06"], format!("{}: id {:?} was handed out before", what, id));
         }
         // C07 (a slot that has been handed out tens of thousands of times may have been retired for good)
         let _ = retired;
         let avail: BTreeSet<usize> = free_before.iter().cloned().filter(|q| self.handed_out.get(q).cloned().unwrap_or(0) < 30000).collect();
         *self.handed_out.entry(p).or_insert(0) += 1;
         if self.uid_live_at_pos(p).is_some() {
-            return Err(v(&["C07", "C08"], format!("{}: returned position {} holds a live node", what, p)));
+            bad!(self, ["C07", "C08"], format!("{}: returned position {} holds a live node", what, p));
         }
         if !avail.is_empty() {
             if self.arena.count() != count_before {
-                return Err(v(&["C07"], format!("{}: a removed slot was available ({:?}) but count() grew {} -> {}", what, avail, count_before, self.arena.count())));
+                bad!(self, ["C07"], format!("{}: a removed slot was available ({:?}) but count() grew {} -> {}", what, avail, count_before, self.arena.count()));
             }
             if !free_before.contains(&p) {
-                return Err(v(&["C07"], format!("{}: position {} was not a removed slot", what, p)));
+                bad!(self, ["C07"], format!("{}: position {} was not a removed slot", what, p));
             }
         } else if free_before.is_empty() {
             // nothing removed at all: the arena must grow by exactly one
             if self.arena.count() != count_before + 1 || p != count_before + 1 {
-                return Err(v(&["C07"], format!("{}: no removed slot, expected position {} and count {}, got {} and {}", what, count_before + 1, count_before + 1, p, self.arena.count())));
+                bad!(self, ["C07"], format!("{}: no removed slot, expected position {} and count {}, got {} and {}", what, count_before + 1, count_before + 1, p, self.arena.count()));
             }
         }
         // stale ids of that slot
@@ -499,24 +499,38 @@ impl Sut {
                 want.sort();
                 if dropped != want {
                     // dropping the payload of a node is how its deletion shows: too many or too few is also a C04 failure
-                    return Err(v(&["C08", "C04"], format!("{}: payloads dropped {:?}, expected exactly those of the deleted nodes {:?}", op_str(op), dropped, want)));
+                    bad!(self, ["C08", "C04"], format!("{}: payloads dropped {:?}, expected exactly those of the deleted nodes {:?}", op_str(op), dropped, want));
                 }
                 for &u in &gone {
                     self.removed_once[u] = true;
                 }
             }
             Op::Clear => {
+                self.log.borrow_mut().clear();
                 self.arena.clear();
+                // C08: clear() drops exactly the payloads of the nodes that were live, once each
+                let mut dropped = self.log.borrow().clone();
+                dropped.sort();
+                let want: Vec<u32> = (0..self.ids.len()).filter(|&u| self.model.nodes[u].alive).map(|u| u as u32).collect();
+                if dropped != want {
+                    bad!(self, ["C08"], format!("clear(): payloads dropped {:?}, expected exactly those of the live nodes {:?}", dropped, want));
+                }
+                self.log.borrow_mut().clear();
                 if !(self.arena.is_empty() && self.arena.count() == 0) {
-                    return Err(v(&["C13"], "clear(): arena not empty".into()));
+                    bad!(self, ["C13"], "clear(): arena not empty".into());
                 }
                 let fresh: Arena<Tok> = Arena::new();
                 if self.arena != fresh {
-                    return Err(v(&["C13"], "after clear() the arena is not equal to Arena::new()".into()));
+                    bad!(self, ["C13"], "after clear() the arena is not equal to Arena::new()".into());
                 }
+                // the cleared arena itself is kept: what it does from here on is compared with the model of a new one
                 let log = self.log.clone();
+                let mask = self.mask.clone();
+                let arena = std::mem::replace(&mut self.arena, Arena::new());
                 *self = Sut::new();
+                self.arena = arena;
                 self.log = log;
+                self.mask = mask;
                 retired.clear();
             }
             Op::Cycle(x, n) => {
@@ -764,6 +778,7 @@ impl Sut {
                 for pat in [0b0101_0101u32, 0b0011_0011, 0b1111_0000, 0b0000_0001, 0b1111_1110] {
                     let mut it = mk_it(name);
                     let (mut lo, mut hi) = (0usize, fwdv.len());
+                    let mut seen: Vec<NodeId> = vec![];
                     for step in 0..fwdv.len() + 2 {
                         let front = (pat >> (step % 8)) & 1 == 0;
                         let got = if front { it.next() } else { it.next_back() };
@@ -778,6 +793,13 @@ impl Sut {
                         } else {
                             None
                         };
+                        if let Some(x) = got {
+                            if seen.contains(&x) {
+                                // C02: an iterator yields each node at most once, whichever ends it is pulled from
+                                bad!(self, ["C02", "C10"], format!("{}({}): pull {} ({}) with pattern {:#b} yields node {:?} a second time", name, u, step, if front { "front" } else { "back" }, pat, self.uid_of(x)));
+                            }
+                            seen.push(x);
+                        }
                         if got != want {
                             bad!(self, ["C10"], format!("{}({}): pull {} ({}) with pattern {:#b} returned {:?}, expected {:?}", name, u, step, if front { "front" } else { "back" }, pat, got.map(|x| self.uid_of(x)), want.map(|x| self.uid_of(x))));
                         }
@@ -944,6 +966,9 @@ fn scenarios() -> Vec<Vec<Op>> {
     out.push(parse_ops("new; new; cycle 1 32767; remove 32768; checked_append 0 32768; checked_insert_after 0 32768; append 32768 0; new; checked_prepend 32768 0"));
     // clear with pending free slots
     out.push(parse_ops("new; new; new; remove 1; clear; new; new; new; remove 0; new; new"));
+    out.push(parse_ops("new; remove 0; clear; new; remove 0; new; new; remove 1; new"));
+    out.push(parse_ops("new; new; new; remove 2; clear; new; new; new; remove 0; new; remove 1; new; new"));
+    out.push(parse_ops("new; new; new; checked_append 0 1; checked_append 0 2; remove_subtree 0; new; clear; new; new; checked_append 0 1; remove 1; remove 0; new; new; new"));
     out
 }
 
@@ -1036,7 +1061,8 @@ fn main() {
         }
         // 2. fixed scenarios (generation counter, clear)
         for ops in scenarios() {
-            let o = run_seq(&ops, &heartbeat, false, &found.keys().cloned().collect());
+            let full = !ops.iter().any(|o| matches!(o, Op::Cycle(..)));
+            let o = run_seq(&ops, &heartbeat, full, &found.keys().cloned().collect());
             nseq += 1;
             nops += ops.len();
             record(&ops, o, &mut found);
@@ -1084,7 +1110,14 @@ fn main() {
             let len = 6 + r.below(14);
             let mut ops = vec![Op::New, Op::New];
             let mut n = 2;
-            for _ in 0..len {
+            // every fourth walk clears the arena somewhere in the middle and goes on with the cleared arena
+            let clear_at = if r.below(4) == 0 { 2 + r.below(len.max(3) - 2) } else { usize::MAX };
+            for k in 0..len {
+                if k == clear_at {
+                    ops.push(Op::Clear);
+                    n = 0;
+                    continue;
+                }
                 let op = random_op(&mut r, n.min(7));
                 if matches!(op, Op::New | Op::AppendValue(_)) {
                     n += 1;
